@@ -131,6 +131,7 @@ CheckProbe(line, ev) ==
        ELSE Mis(line, "C17.allow405", i, ev.allow405[i])
   /\ IF SeqToSet(ev.opt.allow) = Routable(ev) THEN TRUE ELSE Mis(line, "C17.options", 1, ev.opt.allow)
   /\ IF SeqToSet(ev.opt.acam) = Routable(ev) THEN TRUE ELSE Mis(line, "C17.options", 2, ev.opt.acam)
+  /\ IF SeqToSet(ev.opt.allowAcc) = Routable(ev) THEN TRUE ELSE Mis(line, "C17.options", 3, ev.opt.allowAcc)
   /\ IF ev.opt.ran = 0 /\ ~ev.opt.panic THEN TRUE ELSE Mis(line, "C17.alone", 1, <<ev.opt.ran>>)
   /\ IF ev.fprobes = ev.nprobes THEN TRUE ELSE Mis(line, "C17.alone", 2, ev.fprobes)
 
